@@ -96,7 +96,7 @@ impl Property for RoundTrip {
     fn strategy(&self, _: &Ctx) -> BoxedStrategy<RtCase> {
         gens::typed_value().prop_map(|(ty, val)| RtCase { ty, val }).boxed()
     }
-    fn run(&self, _: &Ctx, c: &RtCase) -> Outcome {
+    fn run(&self, ctx: &Ctx, c: &RtCase) -> Outcome {
         let mut o = Outcome::pass();
         let re = ref_encode(schema, c.ty, &c.val, None);
         stat_labels(&mut o, c.ty, &re.stats);
@@ -131,6 +131,16 @@ impl Property for RoundTrip {
             );
             return o;
         }
+        if path_exclusion(ctx, &re.stats, &mut o) {
+            // the pack half above is asserted as for every value; the unpack half is the suspected
+            // finding: it may fail, must not panic, and if it succeeds it must return the value
+            if let Ok((v, _)) = decode(c.ty, &e.bytes) {
+                if v != c.val {
+                    o.fail("roundtrip-mismatch".to_string(), format!("unpack(pack(v)) != v: got {} want {} (type {:?}, bytes {})", show_val(&v), show_val(&c.val), c.ty, hex(&e.bytes)));
+                }
+            }
+            return o;
+        }
         match decode(c.ty, &e.bytes) {
             Err(err) => o.fail(format!("roundtrip-decode-error"), format!("unpack of the packed bytes {} failed: {err} for {:?} {}", hex(&e.bytes), c.ty, show_val(&c.val))),
             Ok((v, rem)) => {
@@ -162,6 +172,11 @@ struct SpliceSpec {
     blob: Vec<u8>,
     /// 0 = well-formed unknown field; 1..=4 wire types 3,4,6,7; 5..=8 field numbers 0 / reserved
     invalid: u8,
+    /// `Some(sel)`: splice at one of the boundaries around the variant field of an enum / Result
+    /// (before it at any depth, after it at top level) instead of at boundary `at`, when the value
+    /// has such a boundary.  (A separate selector, so that `at` means what it meant in older replays.)
+    #[serde(default)]
+    oneof: Option<u16>,
 }
 
 #[derive(Clone, Debug, Serialize, Deserialize)]
@@ -197,8 +212,9 @@ fn splice_spec() -> impl Strategy<Value = SpliceSpec> {
         prop_oneof![3 => Just(0u8), 1 => 1u8..4],
         prop_oneof![2 => Just(vec![]), 4 => prop::collection::vec(any::<u8>(), 0..10), 1 => prop::collection::vec(any::<u8>(), 126..131)],
         prop_oneof![17 => Just(0u8), 3 => 1u8..9],
+        prop::option::weighted(0.35, any::<u16>()),
     )
-        .prop_map(|(at, same_num, num_sel, wt_sel, value, extra, blob, invalid)| SpliceSpec { at, same_num, num_sel, wt_sel, value, extra, blob, invalid })
+        .prop_map(|(at, same_num, num_sel, wt_sel, value, extra, blob, invalid, oneof)| SpliceSpec { at, same_num, num_sel, wt_sel, value, extra, blob, invalid, oneof })
 }
 
 struct Splice;
@@ -216,23 +232,43 @@ impl Property for Splice {
             .prop_map(|((ty, val), splices)| SpliceCase { ty, val, splices })
             .boxed()
     }
-    fn run(&self, _: &Ctx, c: &SpliceCase) -> Outcome {
+    fn run(&self, ctx: &Ctx, c: &SpliceCase) -> Outcome {
         let mut o = Outcome::pass();
         let plain = ref_encode(schema, c.ty, &c.val, None);
         o.label(format!("type:{:?}", c.ty));
+        if path_exclusion(ctx, &plain.stats, &mut o) {
+            // (no panic is still required)
+            let _ = decode(c.ty, &plain.bytes);
+            return o;
+        }
         let n = plain.boundaries.len();
+        let m = plain.oneof_boundaries.len();
         let mut plan = Plan::default();
+        // the same plan without the splices that make up the trigger of finding C15-D
+        let mut plan_without_trigger = Plan::default();
         let mut applied = 0usize;
+        let mut applied_without_trigger = 0usize;
         let mut any_invalid = false;
+        let mut head_trigger = false;
+        let mut top_tail_bytes = 0usize;
         let mut what = vec![];
         // where the splices went, as part of the signature (struct body: no suffix)
         let mut territory = "";
+        let mut territory_without_trigger = "";
         for s in c.splices.iter() {
-            if n == 0 {
-                break;
-            }
-            let idx = sel(s.at, n);
-            let b = &plain.boundaries[idx];
+            let (b, idx, around_variant) = match s.oneof {
+                Some(sel_o) if m > 0 => {
+                    let idx = sel(sel_o, m);
+                    (&plain.oneof_boundaries[idx], idx, true)
+                }
+                _ => {
+                    if n == 0 {
+                        continue;
+                    }
+                    let idx = sel(s.at, n);
+                    (&plain.boundaries[idx], idx, false)
+                }
+            };
             let (num, wt) = match s.invalid {
                 1 => (UNKNOWN_NUMS[sel(s.num_sel, UNKNOWN_NUMS.len())], 3),
                 2 => (UNKNOWN_NUMS[sel(s.num_sel, UNKNOWN_NUMS.len())], 4),
@@ -268,6 +304,8 @@ impl Property for Splice {
                 }
             }
             o.label(if b.depth == 0 { "at-top-level" } else { "at-nested-level" });
+            let bytes = unknown_field_bytes(num, wt, s);
+            let mut is_trigger = false;
             match b.kind {
                 BKind::StructBody => {}
                 BKind::NamedBody => {
@@ -278,38 +316,110 @@ impl Property for Splice {
                     o.label("after-nested-enum-field");
                     territory = ":after-nested-enum-field";
                 }
+                BKind::OneofHead => {
+                    o.label(if b.nested { "before-nested-enum-variant-field" } else { "before-top-level-enum-variant-field" });
+                    territory = ":before-enum-variant-field";
+                    if s.invalid == 0 {
+                        is_trigger = true;
+                        head_trigger = true;
+                    }
+                }
+                BKind::OneofTailTop => {
+                    o.label("after-top-level-enum-field");
+                    territory = ":after-top-level-enum-field";
+                    top_tail_bytes += bytes.len();
+                }
             }
-            let bytes = unknown_field_bytes(num, wt, s);
-            what.push(format!("field {num} wire type {wt} ({}) at boundary {idx} depth {}", hex(&bytes), b.depth));
-            plan.splices.entry(idx).or_default().extend_from_slice(&bytes);
-            applied += 1;
+            if !is_trigger {
+                territory_without_trigger = territory;
+            }
+            what.push(format!("field {num} wire type {wt} ({}) at {} boundary {idx} ({:?}) depth {}", hex(&bytes), if around_variant { "enum" } else { "field" }, b.kind, b.depth));
+            for (pl, count, skip) in [(&mut plan, &mut applied, false), (&mut plan_without_trigger, &mut applied_without_trigger, is_trigger)] {
+                if skip {
+                    continue;
+                }
+                let map = if around_variant { &mut pl.oneof_splices } else { &mut pl.splices };
+                map.entry(idx).or_default().extend_from_slice(&bytes);
+                *count += 1;
+            }
         }
         if applied == 0 {
             o.label("nothing-spliced");
             return o;
         }
-        o.nontrivial = plain.stats.fields >= 2;
+        o.nontrivial = plain.stats.fields >= 2 || m > 0;
         let spliced = ref_encode(schema, c.ty, &c.val, Some(&plan));
-        let desc = || format!("{} into {:?} {}; bytes {}", what.join(", "), c.ty, show_val(&c.val), hex(&spliced.bytes));
-        match decode(c.ty, &spliced.bytes) {
-            Ok((v, rem)) => {
-                if v != c.val {
-                    let sig = if any_invalid { "malformed-unknown-field-disturbs-known" } else { "unknown-field-disturbs-known" };
-                    o.fail(format!("{sig}{territory}"), format!("decoded {} after splicing {}", show_val(&v), desc()));
-                } else if rem != 0 {
-                    o.fail(format!("unknown-field-remainder{territory}"), format!("{rem} bytes unconsumed after splicing {}", desc()));
+        let desc = |enc: &RefEncoding| format!("{} into {:?} {}; bytes {}", what.join(", "), c.ty, show_val(&c.val), hex(&enc.bytes));
+        // Suspected finding C15-D: a derived enum (and Result) takes the FIRST field of its bytes as
+        // the variant and answers unknown-discriminant for anything else, so a well-formed unknown
+        // field in front of the variant field is not skipped.  Trigger (independent of the code):
+        // such a field was spliced at a OneofHead boundary.  Outside strict mode the spliced bytes
+        // must still not panic and, if accepted, must leave the value alone; the rejection is
+        // counted, and the same case is judged in full with the triggering splices left out.
+        if head_trigger && !ctx.strict {
+            o.excluded.push("C15-D".into());
+            match decode(c.ty, &spliced.bytes) {
+                Ok((v, _)) if v != c.val => {
+                    o.fail(format!("unknown-field-disturbs-known{territory}"), format!("decoded {} after splicing {}", show_val(&v), desc(&spliced)));
+                    return o;
                 }
+                Ok(_) => o.label("C15-D:trigger-accepted"),
+                Err(_) => o.label("C15-D:trigger-rejected(excluded)"),
             }
-            Err(e) => {
-                if any_invalid {
-                    o.label("malformed-unknown-rejected");
-                } else {
-                    o.fail(format!("unknown-field-rejected{territory}"), format!("unpack failed with {e} after splicing {}", desc()));
-                }
+            if applied_without_trigger == 0 {
+                return o;
             }
+            let rest = ref_encode(schema, c.ty, &c.val, Some(&plan_without_trigger));
+            splice_verdict(c, &rest, any_invalid, top_tail_bytes, territory_without_trigger, &desc(&rest), &mut o);
+            return o;
         }
+        splice_verdict(c, &spliced, any_invalid, top_tail_bytes, territory, &desc(&spliced), &mut o);
         o
     }
+}
+
+/// Decode the spliced encoding and judge it: the known fields are undisturbed, nothing is left
+/// over (except, for a top-level enum / Result, exactly the bytes spliced after its variant field,
+/// which `unpack` hands back as the remainder), well-formed unknown fields are not rejected.
+fn splice_verdict(c: &SpliceCase, spliced: &RefEncoding, any_invalid: bool, top_tail_bytes: usize, territory: &str, desc: &str, o: &mut Outcome) {
+    match decode(c.ty, &spliced.bytes) {
+        Ok((v, rem)) => {
+            if v != c.val {
+                let sig = if any_invalid { "malformed-unknown-field-disturbs-known" } else { "unknown-field-disturbs-known" };
+                o.fail(format!("{sig}{territory}"), format!("decoded {} after splicing {desc}", show_val(&v)));
+            } else if rem != 0 && rem != top_tail_bytes {
+                o.fail(format!("unknown-field-remainder{territory}"), format!("{rem} bytes unconsumed ({top_tail_bytes} were spliced after a top-level enum's variant field) after splicing {desc}"));
+            } else if top_tail_bytes > 0 {
+                o.label(if rem == 0 { "top-level-enum-tail:consumed" } else { "top-level-enum-tail:returned-as-remainder" });
+            }
+        }
+        Err(e) => {
+            if any_invalid {
+                o.label("malformed-unknown-rejected");
+            } else {
+                o.fail(format!("unknown-field-rejected{territory}"), format!("unpack failed with {e} after splicing {desc}"));
+            }
+        }
+    }
+}
+
+/// Suspected finding C15-E: a `PathBuf` that is not UTF-8 in a `string` field packs its raw bytes,
+/// which the same field's unpack (through `string`) rejects.  Trigger, computed by the reference
+/// encoder from the generated value alone: some `string` x `PathBuf` leaf is not valid UTF-8.
+/// Returns true when the case's decode assertions must be skipped (counted as an exclusion).
+fn path_exclusion(ctx: &Ctx, stats: &Stats, o: &mut Outcome) -> bool {
+    if stats.path_strings > 0 {
+        o.label("has-string-pathbuf");
+    }
+    if stats.path_strings_not_utf8 == 0 {
+        return false;
+    }
+    o.label("has-non-utf8-path-in-string-field");
+    if ctx.strict {
+        return false;
+    }
+    o.excluded.push("C15-E".into());
+    true
 }
 
 /////////////////////////////////////////// arbitrary bytes ////////////////////////////////////////
@@ -534,11 +644,18 @@ impl Property for Concatenated {
             .collect();
         proptest::strategy::Union::new_weighted(arms).boxed()
     }
-    fn run(&self, _: &Ctx, c: &ConcatCase) -> Outcome {
+    fn run(&self, ctx: &Ctx, c: &ConcatCase) -> Outcome {
         let mut o = Outcome::pass();
         o.label(format!("type:{:?}", c.ty));
         let Schema::Struct(fields) = schema(c.ty) else { return o };
         let (DMsg::Struct(fa), DMsg::Struct(fb)) = (&c.a, &c.b) else { return o };
+        let mut stats = ref_encode(schema, c.ty, &c.a, None).stats;
+        let sb = ref_encode(schema, c.ty, &c.b, None).stats;
+        stats.path_strings += sb.path_strings;
+        stats.path_strings_not_utf8 += sb.path_strings_not_utf8;
+        if path_exclusion(ctx, &stats, &mut o) {
+            return o;
+        }
         let mut bytes = encode(c.ty, &c.a).bytes;
         bytes.extend_from_slice(&encode(c.ty, &c.b).bytes);
         let got = match decode(c.ty, &bytes) {
